@@ -434,3 +434,71 @@ func (g *gatedReader) Read(p []byte) (int, error) {
 	}
 	return g.scriptedReader.Read(p)
 }
+
+// (f) a superseded search that is still running when the cache is cleared (an
+// exclude or a change of --nth arrived) finishes its chunks afterwards. What
+// it found must not reach the searches that are started after the clearing -
+// from the very first clearing on.
+func TestVerifC13_LateCacheWrites(t *testing.T) {
+	rapid.Check(t, func(t *rapid.T) {
+		algo.Init("default")
+		sortCriteria = []criterion{byScore, byLength}
+		n := rapid.SampledFrom([]int{100, 200, 300}).Draw(t, "n")
+		lines := lowSelectivityLines(t, n)
+		_, chunks := buildChunks(lines, 0)
+		cache := NewChunkCache()
+		slab := util.MakeSlab(slab16Size, slab32Size)
+		query := rapid.SampledFrom([]string{"a", "ab", "b", "'a"}).Draw(t, "query")
+		deny := map[int32]struct{}{}
+		mk := func(c *ChunkCache, cacheable bool) *Pattern {
+			d := map[int32]struct{}{}
+			for k := range deny {
+				d[k] = struct{}{}
+			}
+			return BuildPattern(c, map[string]*Pattern{}, true, algo.FuzzyMatchV2, true, CaseSmart, true, true, false, cacheable, nil, Delimiter{}, revision{}, []rune(query), d)
+		}
+		rounds := rapid.IntRange(1, 4).Draw(t, "rounds")
+		late := 0
+		var history []string
+		for r := 0; r < rounds; r++ {
+			older := mk(cache, true) // a search started now ...
+			if rapid.Bool().Draw(t, "searchedBefore") {
+				for _, c := range chunks {
+					older.Match(c, slab)
+				}
+				history = append(history, "search")
+			}
+			// ... is overtaken by an exclude: the cache is cleared, new searches carry the new deny list
+			var matching []int32
+			for _, c := range chunks {
+				for _, res := range mk(NewChunkCache(), false).Match(c, slab) {
+					matching = append(matching, res.item.Index())
+				}
+			}
+			if len(matching) > 0 {
+				deny[matching[rapid.IntRange(0, len(matching)-1).Draw(t, "excluded")]] = struct{}{}
+			}
+			cache.Clear()
+			history = append(history, fmt.Sprintf("exclude (%d excluded)", len(deny)))
+			newer := mk(cache, true)
+			// the overtaken search finishes some chunks after the clearing
+			for ci, c := range chunks {
+				if rapid.Bool().Draw(t, "lateChunk") {
+					older.Match(c, slab)
+					late++
+					history = append(history, fmt.Sprintf("late write for chunk %d", ci))
+				}
+			}
+			var got, want []Result
+			fresh := mk(NewChunkCache(), false)
+			for _, c := range chunks {
+				got = append(got, newer.Match(c, slab)...)
+				want = append(want, fresh.Match(c, slab)...)
+			}
+			if d := sameResults(got, want, true); d != "" {
+				t.Fatalf("query %q, history %v: the search started after the exclusion differs from a fresh evaluation with the same exclusions: %s\nlines: %q", query, history, d, compactLines(lines))
+			}
+		}
+		vstat.Case("C13/late-cache-writes", fmt.Sprintf("%s|%v|%q", query, history, lines), late > 0 && len(deny) > 0, fmt.Sprintf("rounds=%d", rounds))
+	})
+}
